@@ -13,7 +13,7 @@ CLAIM = {
          "Connection.send() for 3 messages and the DeferredSender thread running its real run() loop are real threads run one source statement of "
          "of_01.py at a time; the interleaving is a solver variable, every schedule with at most 1 (thorough 2) preemptions is explored for 5 concrete "
          "short-write / EAGAIN socket scripts: accepted stream == queued stream in order, no deadlock, nothing left unflushed."
-         " Also: two connections behind the one DeferredSender (O4), shutdown with more than one I/O buffer queued (O5), data queued while the non-blocking connect is in progress (O6) and a close handler that uses the worker again.",
+         " Also: two connections behind the one DeferredSender (O4), shutdown with more than one I/O buffer queued (O5), data queued while the non-blocking connect is in progress (O6) and a close handler that uses the worker again. O4_two_connections includes a fatal error on one connection while both are backed up.",
  'note': "Trusted: CPython, z3, symx proxies/shims, scripted socket/select (props/env.py). O1 exercises DeferredSender at lock granularity; O3 at "
          "source-statement granularity with RLock/select/waker models (props/ilv.py) under the stated preemption bound; interleavings inside one statement, more "
          "preemptions, and fatal errors during threaded flushing are outside the claim.",
